@@ -281,8 +281,10 @@ pub fn enabled_ops(s: &State, n_max: usize, a_max: usize, profile: &crate::explo
             v.push(Op::Write(x));
         }
     }
-    if profile.value_ops {
+    if profile.value_ops || profile.clear_op {
         v.push(Op::Clear);
+    }
+    if profile.value_ops {
         for k in [0usize, 1, 8] {
             v.push(Op::Reserve(k));
         }
@@ -537,6 +539,26 @@ pub fn step(s: &State, op: Op, cfg: &JudgeCfg) -> StepResult {
             if !o.removed && (x >= count0 || !m.is_live(x)) {
                 new_slots.push(x);
             }
+        }
+    }
+    // the id a single allocation returns names the new node whatever its flag says
+    if let (Outcome::Id(rid), Op::NewNode | Op::AppendValue(_) | Op::TreeLeaf) = (&outcome, op) {
+        let x = slot_of(*rid);
+        if x < obs1.len() && obs1[x].removed {
+            fails.push(mk(
+                C11 | C07 | C08 | opp,
+                "new-node-flag",
+                true,
+                &op,
+                class,
+                "new-node-reports-removed",
+                format!(
+                    "the node just created under {} reports Node::is_removed() == true (get_node_id_at gives {:?}); arena: {}",
+                    fmt_id(Some(*rid)),
+                    arena.get_node_id_at(std::num::NonZeroUsize::new(x + 1).unwrap()).map(|i| fmt_id(Some(i))),
+                    fmt_obs(&obs1)
+                ),
+            ));
         }
     }
     // order of allocation: recycled ones are not ordered by slot, so for multi-allocation
@@ -872,9 +894,11 @@ pub fn step(s: &State, op: Op, cfg: &JudgeCfg) -> StepResult {
         model: model1,
         obs: obs1,
         key: 0,
+        dbg: 0,
     };
     next.rekey();
-    let digest = obs::hash64(&(s.key, &op, outcome.digest_form(), next.key));
+    // configuration-independent: Debug renderings and outcome texts only, no derived hashes of library types
+    let digest = obs::hash64(&(s.dbg, &op, outcome.digest_form(), next.dbg));
     StepResult {
         outcome,
         next: Some(next),
